@@ -6,6 +6,7 @@ require (
 	github.com/atlassian/gostatsd v0.0.0
 	github.com/sirupsen/logrus v1.9.0
 	github.com/spf13/viper v1.17.0
+	github.com/tilinna/clock v1.1.0
 	golang.org/x/time v0.3.0
 )
 
@@ -28,7 +29,6 @@ require (
 	github.com/spf13/cast v1.5.1 // indirect
 	github.com/spf13/pflag v1.0.5 // indirect
 	github.com/subosito/gotenv v1.6.0 // indirect
-	github.com/tilinna/clock v1.1.0 // indirect
 	golang.org/x/net v0.35.0 // indirect
 	golang.org/x/sys v0.30.0 // indirect
 	golang.org/x/text v0.22.0 // indirect
